@@ -84,7 +84,7 @@ type Case struct {
 	Nodes         []NodeSpec   `json:"nodes"`
 	StartSucc     []int        `json:"start_succ"`
 	StartBranches []BranchSpec `json:"start_branches,omitempty"`
-	Input         string       `json:"input"` // value: r.Stream(value) ; stream: r.Transform(Pipe fed by a producer goroutine)
+	Input         string       `json:"input"` // value: r.Stream(value) ; stream: r.Transform(Pipe fed by a producer goroutine) ; collect: r.Collect(same Pipe), the framework drains the output
 	InCap         int          `json:"in_cap,omitempty"`
 	InItems       int          `json:"in_items,omitempty"`
 	Handlers      int          `json:"handlers"`       // callback handlers passed with compose.WithCallbacks
@@ -197,7 +197,7 @@ func (g *genCtx) carve(succ []int, later []int) ([]int, []BranchSpec) {
 		sort.Ints(rest)
 		brs = append(brs, g.branch(ends))
 		edges = rest
-		if len(ends) >= 2 && g.r.Chance(1, 6) { // a second branch over (part of) the same end nodes
+		if len(ends) >= 2 && g.r.Chance(1, 3) { // a second branch over (part of) the same end nodes
 			brs = append(brs, g.branch(append([]int(nil), ends[:2]...)))
 		}
 	}
@@ -313,11 +313,16 @@ func genCase(r *lib.Rng, tier string) *Case {
 		}
 		c.IntBefore, c.IntAfter = uniqInts(c.IntBefore), uniqInts(c.IntAfter)
 	}
-	if r.Chance(1, 2) {
+	switch x := r.Intn(8); {
+	case x < 3:
 		c.Input = "stream"
 		c.InCap = r.Intn(3)
 		c.InItems = r.Range(1, 12)
-	} else {
+	case x < 4:
+		c.Input = "collect"
+		c.InCap = r.Intn(3)
+		c.InItems = r.Range(1, 12)
+	default:
 		c.Input = "value"
 	}
 	switch r.Intn(4) {
@@ -575,7 +580,7 @@ func (g *genCtx) genWorkflow(c *Case, k int) {
 					add(e, p, "data")
 				}
 			}
-			if r.Chance(1, 6) && len(ends) >= 2 {
+			if r.Chance(1, 3) && len(ends) >= 2 {
 				b2 := g.branch(append([]int(nil), ends[:2]...))
 				if p == START {
 					c.StartBranches = append(c.StartBranches, b2)
@@ -730,18 +735,25 @@ func (g *genCtx) subs(c *Case) {
 			inner.Mode = "pregel"
 			g.genPregel(inner, 3)
 		}
+		if c.Free {
+			for j := range inner.Nodes {
+				if inner.Nodes[j].Items > 4 {
+					inner.Nodes[j].Items = 1 + inner.Nodes[j].Items%4
+				}
+			}
+		}
 		c.Nodes[i].Kind = "sub"
 		c.Nodes[i].Sub = &SubSpec{Mode: inner.Mode, Nodes: inner.Nodes, StartSucc: inner.StartSucc, StartBranches: inner.StartBranches}
 	}
 }
 
 // genPregelFree: an arbitrary directed graph in any-predecessor mode (edges and branches in every
-// direction, cycles included, step limit 40). Whether END is reached with no other node scheduled
+// direction, cycles included, step limit 8). Whether END is reached with no other node scheduled
 // is decided after the run (see unfinished): the other runs are outside the property.
 func (g *genCtx) genPregelFree(c *Case, k int) {
 	r := g.r
 	c.Nodes = make([]NodeSpec, k)
-	c.MaxSteps = 40
+	c.MaxSteps = 8 // the data volume can double with every pass of a cycle: few passes, short streams
 	c.Free = true
 	any := func() int { // a node or END
 		t := r.Range(0, k)
@@ -774,6 +786,9 @@ func (g *genCtx) genPregelFree(c *Case, k int) {
 			c.StartSucc, c.StartBranches = edges, brs
 		} else {
 			g.nodeKind(&c.Nodes[j])
+			if c.Nodes[j].Items > 4 {
+				c.Nodes[j].Items = 1 + c.Nodes[j].Items%4
+			}
 			c.Nodes[j].Succ, c.Nodes[j].Branches = edges, brs
 		}
 	}
